@@ -56,7 +56,7 @@ func suiteRange(r *Rng, n int, thorough bool, o *Out) {
 			nullable := (c/28)%2 == 1
 			typ = jsonapi.Type{Name: "t", Attrs: map[string]jsonapi.Attr{}, Rels: map[string]jsonapi.Rel{}}
 			for _, nm := range []string{"a", "b"}[:1+r.IntN(2)] {
-				_ = typ.AddAttr(jsonapi.Attr{Name: nm, Type: k, Nullable: nullable})
+				putAttr(&typ, jsonapi.Attr{Name: nm, Type: k, Nullable: nullable})
 			}
 			o.stat("focus." + jsonapi.GetAttrTypeString(k, nullable))
 		}
